@@ -12,6 +12,8 @@ import (
 //  1. if the record carries a Go replay test (a concrete input derived from the solver's model), it is run against /repo (go test -overlay);
 //  2. the function of the obligation is re-verified and the obligation's status is printed.
 // exit 1 when the violation is still present, 0 when it is gone.
+var replayWork string
+
 func cmdReplay(args []string) {
 	if len(args) != 1 {
 		fmt.Fprintln(os.Stderr, "usage: vq replay <replays/x.json>")
@@ -61,6 +63,7 @@ func cmdReplay(args []string) {
 			}
 		}
 		work, _ := os.MkdirTemp("", "vq-replay-")
+		replayWork = work
 		defer os.RemoveAll(work)
 		dischargeAll(jobs, filepath.Join(work, "q"), 10, 60, false, 16)
 		if len(jobs) == 0 && len(fr.Unbound) == 0 && !strings.Contains(rp.Obligation, "#vacuity") && !strings.Contains(rp.Obligation, "#contract-unbound") {
@@ -76,6 +79,9 @@ func cmdReplay(args []string) {
 	}
 	if still {
 		fmt.Println("violation still present")
+		if replayWork != "" {
+			os.RemoveAll(replayWork)
+		}
 		os.Exit(1)
 	}
 	fmt.Println("violation no longer present")
